@@ -77,7 +77,7 @@ func scenarioRangeE2E(c *vrun.Ctx) {
 	for _, retry := range []bool{false, true} {
 		env := newEnv(envOpts{Backend: p.Backend, RetryInvalid: retry, Server: true, DefaultMaxAgeS: 3600})
 		for _, size := range []int{1, 10, 36} {
-			for _, ifr := range []string{"none", "etag-match", "etag-other", "lm-equal", "lm-earlier", "lm-later", "garbage", "etag-weakened", "weak-stored-same"} {
+			for _, ifr := range []string{"none", "etag-match", "etag-other", "lm-equal", "lm-earlier", "lm-later", "garbage", "etag-weakened", "weak-stored-same", "lone-quote", "empty-quotes", "weak-prefix-only"} {
 				for _, rg := range rangeReps {
 					caseNo++
 					if !c.Mine(caseNo) {
@@ -213,6 +213,15 @@ func runRangeCase(c *vrun.Ctx, env *penv, retry bool, size int, ifr, rg string) 
 	case "weak-stored-same":
 		// If-Range compares strongly (RFC 9110 13.1.5 / 8.8.3.2): a weak tag matches nothing, not even itself
 		hs = append(hs, [2]string{"If-Range", etag})
+		ifMatchExpected = false
+	case "lone-quote":
+		hs = append(hs, [2]string{"If-Range", `"`}) // degenerate tags: whatever they are, they are not the stored validator
+		ifMatchExpected = false
+	case "empty-quotes":
+		hs = append(hs, [2]string{"If-Range", `""`})
+		ifMatchExpected = false
+	case "weak-prefix-only":
+		hs = append(hs, [2]string{"If-Range", `W/`})
 		ifMatchExpected = false
 	case "etag-other":
 		hs = append(hs, [2]string{"If-Range", `"something-else"`})
